@@ -196,6 +196,10 @@ def make_case(rng, i, tier):
             for k in rel:
                 h += ['u%d' % CODE[k], 't%d' % rng.randint(1, 3)]
         if shift:
+            # the user still holds shift here: it must be down at the OS again once the expansion is typed
+            h.append('M')
+            held_at = len(scen)
+            scen.append(None)
             h += ['u42', 't2']
         # at a followup level, a chord that strictly contains a sibling chord (known finding followup-overlap)
         overlap = any(len(p2) > i and p2[:i] == path[:i] and p2[i] < path[i]
@@ -212,7 +216,10 @@ def make_case(rng, i, tier):
         with_output = {tuple(p2) for p2, _ in entries}
         heads = {p2[0] for p2, _ in entries if len(p2) > 1 and (p2[0],) not in with_output}
         headless = any((i, q) != (0, h) and (q <= h or h <= q) for h in heads for i, q in enumerate(path))
-        scen.append(('chord', w, shift, ss, [sorted(ks) for ks in path], 'followup-overlap' if overlap else ('headless-overlap' if headless else '')))
+        cls = 'followup-overlap' if overlap else ('headless-overlap' if headless else '')
+        if shift:
+            scen[held_at] = ('held', cls)
+        scen.append(('chord', w, shift, ss, [sorted(ks) for ks in path], cls))
         in_followup_context = any(len(p2) > len(path) and p2[:len(path)] == path for p2, _ in entries)
         h.append('M')
         if kind == 'chord-then-type':
@@ -237,9 +244,46 @@ def make_case(rng, i, tier):
             'tags': {'smart_space': ss, 'entries': len(entries), 'followups': sum(1 for p, _ in entries if len(p) > 1)}}
 
 
+RESET_DICT = [([{'d', 'g'}], 'dog'), ([{'a', 'b'}], 'about'), ([{'c', 'e'}], 'Come'), ([{'a', 'f', 'h'}], 'feh')]
+
+
+def reset_case(i, tier):
+    """a modifier held across zippychord's forced state reset (more than 10000 ticks without any other key event), then a chord:
+    the property wants the first letter capitalized and the modifier still held afterwards; the unchanged code forgets the held
+    shift (known finding shift-held-past-reset).  Controls: the same with a hold that stays below the limit.  Its own random
+    stream, so that the stream of the other cases does not move."""
+    rng = random.Random(7717 * i + (0 if tier == 'quick' else 1000003))
+    ss = ['none', 'add-space-only', 'full'][i % 3]
+    deadline, wait = 500, 150
+    src = LETTERS + ['x', 'z', 'lsft', 'rsft', 'spc', '.', ',']
+    cfg = '(defsrc %s)\n(deflayer base %s)\n(defzippy zf.txt on-first-press-chord-deadline %d idle-reactivate-time %d%s)' % (
+        ' '.join(src), ' '.join(src), deadline, wait, '' if ss == 'none' else ' smart-space ' + ss)
+    path, w = RESET_DICT[(i // 3) % len(RESET_DICT)]
+    sft = [42, 54][(i // 12) % 2]
+    past = (i // 24) % 2 == 0
+    hold = rng.choice([10001, 10050, 12000, 20500]) if past else rng.choice([200, 5000, 9000, 9350])
+    h = ['t600', 'd%d' % sft, 't%d' % hold]
+    order = sorted(path[0])
+    rng.shuffle(order)
+    for k in order:
+        h += ['d%d' % CODE[k], 't%d' % rng.randint(1, 5)]
+    rel = sorted(path[0])
+    rng.shuffle(rel)
+    for k in rel:
+        h += ['u%d' % CODE[k], 't%d' % rng.randint(1, 3)]
+    marks = [len(h)]
+    h += ['u%d' % sft, 't2']
+    marks.append(len(h))
+    h += ['t%d' % (deadline + 30), 'q']
+    scen = [('held', 'shift-held-past-reset' if past else ''), ('chord', w, True, ss, [sorted(path[0])], 'shift-held-past-reset' if past else '')]
+    return {'id': 'zr%d' % i, 'cfg': cfg, 'files': {'zf.txt': dict_file(RESET_DICT)}, 'hist': h, 'sub': 'ksim', 'scen': scen, 'marks': marks,
+            'entries': [(['+'.join(sorted(ks)) for ks in p], w2) for p, w2 in RESET_DICT],
+            'tags': {'smart_space': ss, 'entries': len(RESET_DICT), 'followups': 0, 'class': 'modifier-held-%s-forced-reset' % ('past' if past else 'below')}}
+
+
 def gen_cases(rng, tier):
     n = 1200 if tier == 'quick' else 30000
-    return [make_case(rng, i, tier) for i in range(n)]
+    return [make_case(rng, i, tier) for i in range(n)] + [reset_case(i, tier) for i in range(48 if tier == 'quick' else 480)]
 
 
 def tick_of_marks(c):
@@ -304,6 +348,10 @@ def oracle(c, it):
     for sc, tk in zip(c['scen'], ticks):
         # the events of tick tk belong to the history up to the marker: replay through tick tk + 1
         text, sh, ag = replay_text(it, tk)
+        if sc[0] == 'held':
+            if not sh:
+                return 'the user still holds shift after the chord but it is up at the OS%s' % ((' [%s]' % sc[1]) if sc[1] else '')
+            continue
         if sc[0] == 'pass':
             expected += sc[1]
         else:
@@ -315,7 +363,12 @@ def oracle(c, it):
                 exp += ' '
             expected += exp
         if text != expected:
-            return 'after scenario %r%s the text buffer holds %r, expected %r' % (sc[:2], (' [%s]' % sc[5]) if sc[0] == 'chord' and sc[5] else '', text, expected)
+            tag = sc[5] if sc[0] == 'chord' else ''
+            if tag == 'shift-held-past-reset':
+                # the recorded finding is one specific wrong text: the whole expansion typed with the forgotten shift still down
+                if text != expected[:len(expected) - len(exp)] + exp.upper():
+                    tag = ''
+            return 'after scenario %r%s the text buffer holds %r, expected %r' % (sc[:2], (' [%s]' % tag) if tag else '', text, expected)
         if sh or ag:
             return 'after scenario %r a modifier is left down (shift=%s altgr=%s)' % (sc[:2], sh, ag)
     return None
